@@ -46,6 +46,14 @@ pub(crate) struct ProcessingLatencyLabels {
 }
 
 /// Metrics defined by the consensus module.
+#[cfg(feature = "verif")]
+impl ProcessingLatencyLabels {
+    /// Whether the message was accepted (runtime monitoring only).
+    pub(crate) fn verif_accepted(&self) -> bool {
+        self.result == ResultLabel::Ok
+    }
+}
+
 #[derive(Debug, Metrics)]
 #[metrics(prefix = "consensus")]
 pub(crate) struct ConsensusMetrics {
